@@ -1,17 +1,9 @@
 import XC.Model.C52_Pairing
 namespace XC.C52
 
-/-- property-conforming scalar multiplication: `[k]P`, `[−k]P = −[k]P`.
-    For `k ≥ 0` this is the code's `Mul`; for `k < 0` the code computes something else
-    (`mulGo`, see Props: `mulGo_neg_one`), which is reported as a finding. -/
-def g1Mul (a : CurvePoint) (k : Int) : CurvePoint :=
-  if k < 0 then (a.mulGo (-k)).neg else a.mulGo k
-
-def g2Mul (a : TwistPoint) (k : Int) : TwistPoint :=
-  if k < 0 then (a.mulGo (-k)).neg else a.mulGo k
-
-def gtExp (a : GFp12) (k : Int) : GFp12 :=
-  if k < 0 then (a.expGo (-k)).invert else a.expGo k
+def g1Mul (a : CurvePoint) (k : Int) : CurvePoint := a.mul k
+def g2Mul (a : TwistPoint) (k : Int) : TwistPoint := a.mul k
+def gtExp (a : GFp12) (k : Int) : GFp12 := a.exp k
 
 def gtUnmarshal (m : Bytes) : Option GFp12 :=
   if m.length ≠ 384 then none else
@@ -49,7 +41,7 @@ def handle (line : String) : String :=
       let rt := match g1Unmarshal (g1Marshal P), g1Unmarshal (g1Marshal Q) with
         | some P', some Q' => s!"rt={if g1Marshal P' == g1Marshal P then 1 else 0} s2={h1 (P'.add Q')}"
         | _, _ => "rt=0"
-      s!"p={h1 P} q={h1 Q} s={h1 (P.add Q)} c={h1 (Q.add P)} n={h1 N} m={h1 (g1Mul P k)} d={h1 (P.add P)} z={h1 (P.add N)} {rt}"
+      s!"p={h1 P} q={h1 Q} s={h1 (P.add Q)} c={h1 (Q.add P)} n={h1 N} m={h1 (g1Mul P k)} d={h1 (P.add P)} dd={if g1Marshal (P.add P) == g1Marshal (g1Mul P 2) then 1 else 0} z={h1 (P.add N)} {rt}"
     | _, _, _ => "bad-op"
   | "g2" =>
     match o.int? "a", o.int? "b", o.int? "k" with
@@ -59,7 +51,7 @@ def handle (line : String) : String :=
       let rt := match g2Unmarshal (g2Marshal P), g2Unmarshal (g2Marshal Q) with
         | some P', some Q' => s!"rt={if g2Marshal P' == g2Marshal P then 1 else 0} s2={h2 (P'.add Q')}"
         | _, _ => "rt=0"
-      s!"p={h2 P} q={h2 Q} s={h2 (P.add Q)} c={h2 (Q.add P)} m={h2 (g2Mul P k)} d={h2 (P.add P)} {rt}"
+      s!"p={h2 P} q={h2 Q} s={h2 (P.add Q)} c={h2 (Q.add P)} m={h2 (g2Mul P k)} d={h2 (P.add P)} dd={if g2Marshal (P.add P) == g2Marshal (g2Mul P 2) then 1 else 0} {rt}"
     | _, _, _ => "bad-op"
   | "g1m" =>
     match o.hex? "m", o.int? "k" with
@@ -82,12 +74,12 @@ def handle (line : String) : String :=
       s!"{showPair (pair (g1Mul .gen a) (g2Mul .gen b))} bilin=1"
     | _, _ => "bad-op"
   | "pairm" =>
-    match o.hex? "g1", o.hex? "g2" with
-    | some m1, some m2 =>
+    match o.hex? "g1", o.hex? "g2", o.int? "k1", o.int? "k2" with
+    | some m1, some m2, some k1, some k2 =>
       match g1Unmarshal m1, g2Unmarshal m2 with
-      | some P, some Q => showPair (pair P Q)
+      | some P, some Q => showPair (pair (g1Mul P k1) (g2Mul Q k2))
       | _, _ => "reject"
-    | _, _ => "bad-op"
+    | _, _, _, _ => "bad-op"
   | "gt" =>
     match o.hex? "e", o.hex? "f", o.int? "k" with
     | some me, some mf, some k =>
